@@ -156,6 +156,11 @@ def handleC14 (cmd : String) (args : List Sexp) : Option Sexp :=
       let sh (o : Option Prob.Shape) : Sexp := match o with | some s => ofNats s | none => .atom "none"
       pure (.list [sh (Prob.compositeLogProbShape sb heads), sh (Prob.moduleLogProbShape sb heads),
                    .list ((Prob.perHeadShapes sb heads).map ofNats)])
+  | "c14.prob_keys", [.atom agg, .list heads, .atom lp] => do
+      -- (written keys) (advertised keys) of a composite probabilistic module with return_log_prob=True
+      let heads ← heads.mapM asAtom?
+      pure (.list [.list ((Prob.writtenKeys (agg == "true") heads lp).map .atom),
+                   .list ((Prob.advertisedKeys (agg == "true") heads lp).map .atom)])
   | _, _ => none
 
 end TdVerif.Drive
